@@ -64,16 +64,13 @@ def atom_term(atom, negated=False):
 
 def candidates(prog, rng):
     """Candidate queries (ground and non-ground) and evidence literals for a program."""
-    preds = {}
-    for c in prog["clauses"]:
-        for _p, h in c["heads"]:
-            preds[h[0]] = len(h[1])
-    names = sorted(n for n in preds if n != "dom")
+    sigs = sorted(set((h[0], len(h[1])) for c in prog["clauses"] for _p, h in c["heads"] if h[0] != "dom"))
+    preds = dict(sigs)  # name -> arity (last one wins for overloaded names; `sigs` keeps all)
+    names = sorted(preds)
     consts = prog["consts"]
     Q = []
     for _ in range(6):
-        n = rng.choice(names)
-        ar = preds[n]
+        n, ar = rng.choice(sigs)
         r = rng.random()
         if ar and r < 0.35:
             args = [rng.choice(["X", "Y"][:ar]) if rng.random() < 0.7 else rng.choice(consts) for _ in range(ar)]
@@ -85,15 +82,23 @@ def candidates(prog, rng):
         if q not in Q:
             Q.append(q)
     # list-collecting helpers (all/3, findall/3 ground their goal through uncached helper predicates of the engine)
-    unary = [n for n in names if preds[n] == 1 and n.startswith("f")]  # base predicates only: no recursion below the collector
+    overloaded = set(n for n, _a in sigs if sum(1 for m, _b in sigs if m == n) > 1)
+    unary = [n for n, a in sigs if a == 1 and n.startswith("f") and n not in overloaded]  # base predicates only: no recursion below the collector
     for j, n in enumerate(unary[:2]):
         Q.append(["zzall_%s" % n, ["L"]])
         if rng.random() < 0.5:
             Q.append(["zzfa_%s" % n, ["L"]])
+    # subquery/2,3 on ground base atoms (the builtin grounds and evaluates into a ground program of its own)
+    ground_base = [[n, [rng.choice(consts) for _ in range(a)]] for n, a in sigs if n.startswith("f")]
+    if ground_base and rng.random() < 0.5:
+        A = rng.choice(ground_base)
+        B = rng.choice(ground_base)
+        Q.append(["zzsq_%d" % len(Q), ["P"], "subquery(%s, P)" % gen.atom_str(A)])
+        Q.append(["zzsqe_%d" % len(Q), ["P"], "subquery(%s, P, [%s])" % (gen.atom_str(A), gen.atom_str(B))])
     E = []
     for _ in range(3):
-        n = rng.choice(names)
-        a = [n, [rng.choice(consts) for _ in range(preds[n])]]
+        n, ar = rng.choice(sigs)
+        a = [n, [rng.choice(consts) for _ in range(ar)]]
         if not any(e[0] == a for e in E):
             E.append([a, rng.random() < 0.6])
     return Q, E
@@ -106,6 +111,8 @@ def helper_clauses(Q):
             out.append("%s(L) :- all(X, %s(X), L)." % (q[0], q[0][len("zzall_"):]))
         elif q[0].startswith("zzfa_"):
             out.append("%s(L) :- findall(X, %s(X), L)." % (q[0], q[0][len("zzfa_"):]))
+        elif q[0].startswith("zzsq") and len(q) > 2:
+            out.append("%s(P) :- %s." % (q[0], q[2]))
     return "\n".join(out) + ("\n" if out else "")
 
 
@@ -159,7 +166,7 @@ class Fresh(object):
     def text_for(self, qis, eis):
         lines = [self.base]
         for qi in qis:
-            lines.append("query(%s)." % gen.atom_str(self.Q[qi]))
+            lines.append("query(%s)." % gen.atom_str(self.Q[qi][:2]))
         for ei in eis:
             a, v = self.E[ei]
             lines.append("evidence(%s,%s)." % (gen.atom_str(a), "true" if v else "false"))
@@ -307,17 +314,17 @@ def run_history(base_text, Q, E, ops, stats=None, real_final=False):
                         raised = PL.outcome_of_exception(ex)
                     grounding_error = f["kind"] in ("err", "crash") and f.get("cls") != "InconsistentEvidenceError"
                     if raised is not None:
-                        if grounding_error and raised.get("cls") == f.get("cls"):
+                        if f["kind"] != "ok" and raised.get("cls") == f.get("cls"):
                             poison(t, e)  # legitimately failing query
                             trace.append("ground_q:raise")
                             continue
                         raise Violation("ground_q:%s|%s@%s" % (PL.kind_tag(f), PL.kind_tag(raised), DC.short_site(raised)),
                                         "grounding %s into a used target raised %s, alone it gives %s" % (
-                                            gen.atom_str(Q[qi]), PL.kind_tag(raised), PL.kind_tag(f)),
+                                            gen.atom_str(Q[qi][:2]), PL.kind_tag(raised), PL.kind_tag(f)),
                                         sides(f, raised))
                     if grounding_error:
                         raise Violation("ground_q:%s|ok@%s" % (PL.kind_tag(f), DC.short_site(f)),
-                                        "grounding %s alone raises %s but succeeded in the history" % (gen.atom_str(Q[qi]), PL.kind_tag(f)),
+                                        "grounding %s alone raises %s but succeeded in the history" % (gen.atom_str(Q[qi][:2]), PL.kind_tag(f)),
                                         sides(f, {"kind": "ok", "results": {}}))
                     model[t]["q"].append(qi)
                     model[t]["used"] = True
@@ -416,7 +423,7 @@ def run_history(base_text, Q, E, ops, stats=None, real_final=False):
                         continue
                     raise Violation("query:%s|%s" % (PL.kind_tag(f) if f["kind"] != "ok" else "ok", PL.kind_tag(got) if got["kind"] != "ok" else "answers"),
                                     "engine.query(%s) on the shared database: fresh %s, history %s" % (
-                                        gen.atom_str(Q[qi]), f.get("answers", PL.kind_tag(f)), got.get("answers", PL.kind_tag(got))),
+                                        gen.atom_str(Q[qi][:2]), f.get("answers", PL.kind_tag(f)), got.get("answers", PL.kind_tag(got))),
                                     sides(f, got))
                 trace.append("query")
                 continue
@@ -475,12 +482,12 @@ def zero_prob_only(a, b):
 def base_text_of(prog, Q, faults):
     text = gen.program_text(prog, with_queries=False, with_evidence=False)
     defined = set(h[1][0] for cl in prog["clauses"] for h in cl["heads"])
-    text += helper_clauses([q for q in Q if q[0].split("_", 1)[-1] in defined])
+    text += helper_clauses([q for q in Q if q[0].split("_", 1)[-1] in defined or q[0].startswith("zzsq")])
     if faults:
         text += POISON
         for qi, q in enumerate(Q):
-            text += "poison_deep_arith_%d :- %s, poison_arith.\n" % (qi, gen.atom_str(q))
-            text += "poison_deep_ng_%d :- %s, poison_ng(Y).\n" % (qi, gen.atom_str(q))
+            text += "poison_deep_arith_%d :- %s, poison_arith.\n" % (qi, gen.atom_str(q[:2]))
+            text += "poison_deep_ng_%d :- %s, poison_ng(Y).\n" % (qi, gen.atom_str(q[:2]))
     return text
 
 
@@ -488,10 +495,15 @@ def run_case(prog, Q, E, ops, faults, stats=None, real_final=False):
     """Returns (violation dict or None, shared, trace)."""
     text = base_text_of(prog, Q, faults)
     try:
-        shared, trace = run_history(text, Q, E, ops, stats, real_final)
+        with PL.wall_guard(240):
+            shared, trace = run_history(text, Q, E, ops, stats, real_final)
         return None, shared, trace
     except Violation as v:
         return v, 0, None
+    except PL.WallBudget:
+        if stats is not None:
+            stats["wall_budget"] = stats.get("wall_budget", 0) + 1
+        return None, 0, "wall-budget"
 
 
 def build(prog, Q, E, ops, faults, v, tags):
@@ -538,7 +550,7 @@ def strip_dummy(text):
 def tags_for(prog, Q, E):
     from sim import ref
     try:
-        p = dict(prog, queries=list(Q), evidence=[[a, v, 0] for a, v in E])
+        p = dict(prog, queries=[q[:2] for q in Q], evidence=[[a, v, 0] for a, v in E])
         p["consts"] = sorted(set(p.get("consts", [])) | {"a"})
         if not gen.is_valid(p):
             defined = set((h[1][0], len(h[1][1])) for c in p["clauses"] for h in c["heads"])
@@ -595,7 +607,7 @@ def run_shard(shard):
                     res["nontrivial"].append(digest((case["digest"], ops)))
                 res["traces"].append(trace)
                 if not res["samples"]:
-                    res["samples"].append({"program": gen.program_text(prog, False, False), "queries": [gen.atom_str(q) for q in Q],
+                    res["samples"].append({"program": gen.program_text(prog, False, False), "queries": [gen.atom_str(q[:2]) for q in Q],
                                            "evidence": [[gen.atom_str(a), v2] for a, v2 in E], "ops": ops, "verdict": "ok"})
                 continue
             m = {"signature": v.sig, "tags": tags, "op": v.sig.split(":", 1)[0], "faults": faults}
